@@ -115,6 +115,16 @@ def gen_std(ctx, path):
                     for s in starts[:2 if ctx.quick else 8]:
                         pre = [] if A == root else [A]
                         c.add(op="tri", **{"from": root, "in": s, "p1": pre + [B], "p2": pre + [via, B]})
+        # colours of the widest gamut of the group that the others can only write with negative components
+        wide = {"srgb": "linrec2020", "prophoto": "linprophoto", "dcip3": "lindcip3"}[root]
+        rgbs = [n for n in group if not any(n.startswith(p) for p in ("xyz", "lab", "lch", "luv", "hs", "hw"))]
+        for s in [(0.02, 0.95, 0.05), (0.95, 0.03, 0.04), (0.03, 0.05, 0.9), (0.9, 0.9, 0.02)]:
+            for B in rgbs + [group[0], group[1]]:
+                if B != wide:
+                    c.add(**{"from": wide, "in": s, "path": [B, wide], "mode": "u"})
+                    for C in rgbs[: (3 if ctx.quick else len(rgbs))]:
+                        if C not in (B, wide):
+                            c.add(op="tri", **{"from": wide, "in": s, "p1": [C], "p2": [B, C]})
         # a cross-group attempt must not exist
         other = [g for r, g in STD_GROUPS.items() if r != root][0]
         c.add(**{"from": root, "in": starts[0], "path": [other[0]], "mode": "u"})
